@@ -15,6 +15,7 @@ import (
 
 	"verifharness/desc"
 	"verifharness/ev"
+	"verifharness/lib"
 )
 
 // ---- C20: the struct dumper emits well-formed JSON matching the standard encoder ----
@@ -26,7 +27,7 @@ type DumpCase struct {
 }
 
 type dumpFacts struct {
-	emptyStruct, boolean, strKeyMap, multiEntryMap, noExported, nilPtrInCollection, firstUnexported bool
+	emptyStruct, boolean, strKeyMap, multiEntryMap, noExported, nilPtrInCollection, firstUnexported, namedKey, bulk bool
 	depth                                                                                           int
 }
 
@@ -138,7 +139,12 @@ func genDumpType(t *rapid.T, depth, maxDepth int, facts *dumpFacts, inCollection
 		if n >= 2 {
 			facts.multiEntryMap = true
 		}
-		return desc.Map(desc.Scalar(kk), et), v
+		kt := desc.Scalar(kk)
+		if _, ok := lib.NamedScalars[kk]; ok && rapid.IntRange(0, 2).Draw(t, "namedKey") == 0 {
+			kt = desc.NamedScalar(kk) // a defined key type (type Color string): keyed like its kind
+			facts.namedKey = true
+		}
+		return desc.Map(kt, et), v
 	}
 	return genDumpScalar(t, facts)
 }
@@ -148,6 +154,30 @@ func genDumpStruct(t *rapid.T, depth, maxDepth int, facts *dumpFacts) (desc.T, d
 	ty := desc.T{K: "struct"}
 	v := desc.V{}
 	exported := 0
+	if depth == 0 && n > 0 && rapid.IntRange(0, 149).Draw(t, "bulk") == 77 {
+		// ten thousand and more small elements in front of the other fields (counters, buffers and
+		// comma bookkeeping inside the dumper see them all)
+		total := rapid.SampledFrom([]int{10001, 12000, 20000}).Draw(t, "bulkLen")
+		var bt desc.T
+		var unit desc.V
+		switch rapid.IntRange(0, 2).Draw(t, "bulkElem") {
+		case 0:
+			bt, unit = desc.T{K: "struct"}, desc.V{}
+			facts.emptyStruct = true
+		case 1:
+			bt, unit = desc.Scalar("int"), desc.V{I: 7}
+		default:
+			bt, unit = desc.Ptr(desc.T{K: "struct", Fields: []desc.F{{Name: "A", T: desc.Scalar("bool")}}}), desc.V{Nil: true}
+		}
+		bv := desc.V{E: make([]desc.V, total)}
+		for i := range bv.E {
+			bv.E[i] = unit
+		}
+		ty.Fields = append(ty.Fields, desc.F{Name: "Bulk", T: desc.Slice(bt)})
+		v.E = append(v.E, bv)
+		exported++
+		facts.bulk = true
+	}
 	for i := 0; i < n; i++ {
 		ft, fv := genDumpType(t, depth+1, maxDepth, facts, false)
 		name := fieldNames[i]
@@ -331,7 +361,18 @@ func sameDoc(a, b interface{}, v reflect.Value, path string) string {
 			return fmt.Sprintf("%s: object has keys %v, standard encoder has %v", path, keysOf(am), keysOf(bm))
 		}
 		for _, k := range v.MapKeys() {
-			ks := fmt.Sprint(k.Interface())
+			// the key as the standard encoder writes it: by kind (a String method of a defined key type plays no part)
+			var ks string
+			switch k.Kind() {
+			case reflect.String:
+				ks = k.String()
+			case reflect.Int, reflect.Int8, reflect.Int16, reflect.Int32, reflect.Int64:
+				ks = strconv.FormatInt(k.Int(), 10)
+			case reflect.Uint, reflect.Uint8, reflect.Uint16, reflect.Uint32, reflect.Uint64, reflect.Uintptr:
+				ks = strconv.FormatUint(k.Uint(), 10)
+			default:
+				ks = fmt.Sprint(k.Interface())
+			}
 			av, has := am[ks]
 			if !has {
 				return fmt.Sprintf("%s: key %q missing from the dump (keys %v)", path, ks, keysOf(am))
@@ -440,7 +481,7 @@ func TestC20(t *testing.T) {
 		case 1, 2, 3:
 			c.T, c.V = desc.Ptr(st), desc.V{E: []desc.V{sv}}
 		}
-		for name, on := range map[string]bool{"empty-struct": facts.emptyStruct, "bool": facts.boolean, "string-keyed-map": facts.strKeyMap, "multi-entry-map": facts.multiEntryMap,
+		for name, on := range map[string]bool{"empty-struct": facts.emptyStruct, "bool": facts.boolean, "string-keyed-map": facts.strKeyMap, "map-key-of-a-defined-type": facts.namedKey, "ten-thousand-elements-before-other-fields": facts.bulk, "multi-entry-map": facts.multiEntryMap,
 			"struct-without-exported-fields": facts.noExported, "nil-pointer-in-collection": facts.nilPtrInCollection, "first-field-unexported": facts.firstUnexported} {
 			if on {
 				ev.Class("has-" + name)
